@@ -40,7 +40,19 @@
 (*               seen   frame -> position at the first visit under the     *)
 (*                      current parameters (Null = not visited)            *)
 (*               op     history: one record per executed function          *)
-(*    actions    one per conversion function, named after it               *)
+(*    actions    one per conversion function, named after it; with WRepeat  *)
+(*               also  set_omega  the caller changes the angle IN PLACE     *)
+(*                                (omega += ..., omega[:] = ...: the array  *)
+(*                                OBJECT handed to the next function is the *)
+(*                                one handed to the previous ones, only its *)
+(*                                contents differ); the angle moves to the  *)
+(*                                next one of WAng, a stage position that   *)
+(*                                was derived from the old angle is a free  *)
+(*                                value again (phase 0)                     *)
+(*                     repeat     the caller puts the contents the argument *)
+(*                                objects had at the last call back (in     *)
+(*                                place) and calls the same function again: *)
+(*                                the result is that call's result          *)
 (*    invariants CycleIdentity  returning to a visited frame gives the     *)
 (*                              same position                              *)
 (*               RefAgree       every position is the image of the one     *)
@@ -58,7 +70,19 @@
 (*               RoundTripI     dty_to_dtyi(dtyi_to_dty(i)) = i            *)
 (*               VoxelHasRow    the discretised row lies in the            *)
 (*                              get_voxel_idx window                       *)
+(*               FunctionOfCurrentValues  THE REPEAT LAW: every operation  *)
+(*                              is a function of the current VALUES of its  *)
+(*                              arguments - two executions of one function  *)
+(*                              on equal values give equal results whatever *)
+(*                              was executed in between (no memory of an    *)
+(*                              earlier call, of the identity of an array   *)
+(*                              or of an earlier angle); with RefAgree,     *)
+(*                              which is stated for the CURRENT angle after *)
+(*                              every set_omega, a result never belongs to  *)
+(*                              an angle the argument held before           *)
 (*    emission   EmitWalk prints every behaviour of length Depth           *)
+(*    cfgs       ScanGeom_walk_q / _t (WRepeat = FALSE), ScanGeom_walk_rep  *)
+(*               / _rep_t and _sim (WRepeat = TRUE)                         *)
 (*    bounds     walks of Depth conversions; constant sets W*; lengths in  *)
 (*               half steps of 1/2, 1, 3 and of 1/10, 3/7 (not binary      *)
 (*               fractions: no float of the implementation is exact, the   *)
@@ -66,7 +90,9 @@
 (*    covariant  (harness side, the model is unchanged): omega handed over *)
 (*               as the angle -1 / 0 / +1 whole turns (Ang is a class mod  *)
 (*               360); scalar or array arguments, the elements of an array *)
-(*               being the walks of a group that differ in the angle       *)
+(*               being the walks of a group that differ in the angle; the  *)
+(*               array arguments of ALL groups of one size are the same    *)
+(*               objects, rewritten in place from call to call             *)
 (*                                                                         *)
 (* 2. RECON (InitRecon / NextRecon)          binding mode A                *)
 (*    variables  cfg (sx, sy, y0, ystep, ymin, ny, scan, padmode), stage,  *)
@@ -87,6 +113,13 @@
 (*               in-beam dty at three distinct angles determines sx, sy,   *)
 (*               y0 exactly; rec.fit is what a fit has to return)          *)
 (*    emission   EmitRecon prints one record per finished case             *)
+(*    repeat     (harness side, the law above for the FBP: a function of   *)
+(*               sinogram, angles and options, not of the calls before it):*)
+(*               every FBP of a case and every option combination is run   *)
+(*               again later in the same process at the same size and must *)
+(*               be bit-identical to its first run; the in-beam dty of the *)
+(*               other scan description is asked with the SAME omega array *)
+(*               rewritten in place                                        *)
 (*    covariant  (harness side): the scan written with omega + 360 k, in   *)
 (*               decreasing 2 degree steps, with an offset start; the      *)
 (*               sinogram dtype (float64 / float32); interpolant and       *)
@@ -129,6 +162,7 @@ EXTENDS ExactLA, Json
 CONSTANTS
   Depth,                                    \* length of the emitted walks
   WAng, WCombo, WStart,                    \* walk scope: angles, <<pos/2, y0/2, ystep, shape, dty0/2, ymin/2>>, start frames
+  WRepeat,                                 \* TRUE: the walk machine also has set_omega and repeat
   RNy, ROffH, RPosQ, RYstep, RScan, RPadMode, RYminMode,        \* recon scope
   PMaxN, PMaxW, PMaxP                                           \* partition scope: angles, stride (workers), pool size
 
@@ -147,6 +181,9 @@ ComboQuick == { << <<7,4>>,   -7,  <<1,2>>, <<9,12>>,  5, -13 >>,
                 << <<-6,-3>>,  3,  <<3,1>>, <<9,12>>, -9,   6 >>,      \* no float of the implementation is exact
                 << <<9,-2>>, -20,  <<1,1>>, <<10,7>>,  0, -40 >>,
                 << <<7,-4>>,  11,  <<3,7>>, <<9,12>>, -9,   6 >> }
+ComboRep   == { << <<7,4>>,   -7,  <<1,2>>, <<9,12>>,  5, -13 >>,
+                << <<-5,8>>,  20,  <<1,10>>, <<10,7>>, 5, -13 >> }
+StartRep   == { "sample", "recon" }         \* start frames of the set_omega / repeat runs (every frame is passed through)
 PosFour    == { <<7,4>>, <<-5,8>>, <<-6,-3>>, <<9,-2>> }            \* half steps, one per quadrant
 YstepAll   == { <<1,2>>, <<1,1>>, <<3,1>>, <<1,10>> }              \* 1/10: not a binary fraction
 YstepQuick == { <<1,2>>, <<3,1>>, <<1,10>> }
@@ -169,6 +206,15 @@ ROffAll    == -20..20
 ROffQuick  == { -20, -13, -6, 0, 1, 7, 20 }
 RPadModes  == { "own", "pbp", "own3" }
 RYminModes == { "sym", "off" }
+
+AngSeq == << <<1,0,1>>, <<0,1,1>>, <<-1,0,1>>, <<0,-1,1>>, <<4,3,5>>, <<3,-4,5>>,
+             <<12,5,13>>, <<5,-12,13>>, <<24,7,25>>, <<-7,24,25>> >>
+ASSUME { AngSeq[k] : k \in 1..Len(AngSeq) } = Ang
+\* the angle an in-place change of omega leads to: the next one of WAng in the order of AngSeq (cyclic)
+AngIdx(a)  == CHOOSE k \in 1..Len(AngSeq) : AngSeq[k] = a
+AngAt(a, d) == AngSeq[((AngIdx(a) - 1 + d) % Len(AngSeq)) + 1]
+NextAng(a) == LET ds == { d \in 1..Len(AngSeq) : AngAt(a, d) \in WAng }
+              IN  IF ds = {} THEN a ELSE AngAt(a, CHOOSE d \in ds : \A e \in ds : d <= e)
 
 \* ---- exact rationals ------------------------------------------------------------
 QN2(n, d, g) == IF d < 0 THEN << (-n) \div g, (-d) \div g >> ELSE << n \div g, d \div g >>
@@ -321,7 +367,8 @@ InitWalk ==
                     dty0 |-> QMul(Q(dh), hs) ]
            p0  == RefPos(f0, c.P0, c, c.dty0)
            u0  == DtyiArg(DtyInBeam(c.P0, c.y0, a), c.ystep, c.ymin)
-       IN  /\ cfg = c @@ [ start |-> p0, dc |-> QRoundHalfEven(u0), tie |-> QIsHalf(u0) ]
+       IN  /\ cfg = c @@ [ start |-> p0, dc |-> QRoundHalfEven(u0), tie |-> QIsHalf(u0),
+                              om0 |-> a, dc0 |-> QRoundHalfEven(u0), tie0 |-> QIsHalf(u0) ]   \* om / dc / tie move with set_omega
            /\ frame = f0
            /\ pos = p0
            /\ dty = c.dty0
@@ -329,13 +376,18 @@ InitWalk ==
   /\ phase = 0 /\ dtyi = NoI /\ op = << >>
   /\ stage = 0 /\ rec = Null /\ jobs = Null
 
-Do(name, f2, p2, d2, ph2, i2) ==
+\* c2 = the parameters after the step (cfg, or cfg with another angle); every record of the history carries the
+\* angle, dtyi_calc and the tie flag that hold after it
+DoC(name, c2, f2, p2, d2, ph2, i2) ==
   /\ Len(op) < Depth
+  /\ cfg' = c2
   /\ frame' = f2 /\ pos' = p2 /\ dty' = d2 /\ phase' = ph2 /\ dtyi' = i2
-  /\ seen' = LET s1 == IF d2 # dty THEN [seen EXCEPT !["lab"] = Null] ELSE seen
+  /\ seen' = LET s1 == IF d2 # dty \/ c2.om # cfg.om THEN [seen EXCEPT !["lab"] = Null] ELSE seen
              IN  [s1 EXCEPT ![f2] = IF s1[f2] = Null THEN p2 ELSE s1[f2]]
-  /\ op' = Append(op, [ a |-> name, f |-> f2, p |-> p2, d |-> d2, ph |-> ph2, i |-> i2 ])
-  /\ UNCHANGED << cfg, stage, rec, jobs >>
+  /\ op' = Append(op, [ a |-> name, f |-> f2, p |-> p2, d |-> d2, ph |-> ph2, i |-> i2,
+                        om |-> c2.om, dc |-> c2.dc, tie |-> c2.tie ])
+  /\ UNCHANGED << stage, rec, jobs >>
+Do(name, f2, p2, d2, ph2, i2) == DoC(name, cfg, f2, p2, d2, ph2, i2)
 
 Conv(name, f2, p2) == Do(name, f2, p2, dty, phase, dtyi)
 
@@ -386,7 +438,26 @@ dty_to_dtyi == phase = 1 /\ Do("dty_to_dtyi", frame, pos, dty, 2, DtyToDtyi(dty,
 dtyi_to_dty == phase = 2 /\ frame # "lab" /\
                Do("dtyi_to_dty", frame, pos, DtyiToDty(dtyi, cfg.ystep, cfg.ymin), 3, dtyi)
 
+\* -- the caller changes omega in place (same array object, other contents).  Not in the lab frame (a lab position
+\*    belongs to one angle).  The position in the sample / step / recon frame does not depend on the angle; the stage
+\*    position keeps its value but is no longer the in-beam one: phase 0.  dtyi_calc is that of the new angle.
+LastName == IF Len(op) = 0 THEN "" ELSE op[Len(op)].a
+set_omega ==
+  /\ WRepeat /\ frame # "lab" /\ LastName # "set_omega"
+  /\ LET a2 == NextAng(cfg.om)
+         u2 == DtyiArg(DtyInBeam(cfg.P0, cfg.y0, a2), cfg.ystep, cfg.ymin)
+     IN  /\ a2 # cfg.om
+         /\ DoC("set_omega", [ cfg EXCEPT !.om = a2, !.dc = QRoundHalfEven(u2), !.tie = QIsHalf(u2) ],
+                frame, pos, dty, 0, NoI)
+\* -- the last function is called again with the argument objects holding the values they held at that call
+\*    (restored in place): the result is the same result; the state does not move
+repeat ==
+  /\ WRepeat /\ Len(op) >= 1 /\ Len(op) < Depth /\ LastName \notin { "set_omega", "repeat" }
+  /\ op' = Append(op, [ op[Len(op)] EXCEPT !.a = "repeat" ])
+  /\ UNCHANGED << cfg, frame, pos, dty, phase, dtyi, seen, stage, rec, jobs >>
+
 NextWalk ==
+  \/ set_omega \/ repeat
   \/ sample_to_lab_sincos \/ sample_to_lab \/ lab_to_sample_sincos \/ lab_to_sample
   \/ sample_to_step \/ step_to_sample \/ step_to_recon \/ recon_to_step
   \/ sample_to_recon \/ recon_to_sample \/ lab_to_step \/ step_to_lab \/ lab_to_recon \/ recon_to_lab
@@ -437,6 +508,22 @@ VoxelHasRow  == frame # "lab" =>
                   LET u == UArg(frame, pos, dty)
                       r == QRoundHalfEven(u)
                   IN  VoxLo(u) <= r /\ r <= VoxHi(u) /\ VoxHi(u) - VoxLo(u) \in {1, 2}
+\* THE REPEAT LAW.  Execution k of the history: its function (a repeat stands for the function before it), the
+\* values its arguments held (the state before it; for a repeat the state before the repeated call) and its result.
+OpName(k)   == IF op[k].a = "repeat" THEN op[k-1].a ELSE op[k].a
+OpBeforeK(k) == IF k = 1 THEN [ f |-> cfg.f0, p |-> cfg.start, d |-> cfg.dty0, i |-> NoI, om |-> cfg.om0 ]
+                ELSE [ f |-> op[k-1].f, p |-> op[k-1].p, d |-> op[k-1].d, i |-> op[k-1].i, om |-> op[k-1].om ]
+OpArgs(k)   == IF op[k].a = "repeat" THEN OpBeforeK(k-1) ELSE OpBeforeK(k)
+OpResult(k) == << op[k].f, op[k].p, op[k].d, op[k].i, op[k].om >>
+FunctionOfCurrentValues ==
+  \A j, k \in 1..Len(op) : (j < k /\ OpName(j) = OpName(k) /\ OpArgs(j) = OpArgs(k)) => OpResult(k) = OpResult(j)
+\* a repeat is never the first record and never follows a set_omega / repeat; the angle of the history changes
+\* only at a set_omega
+RepeatWellFormed ==
+  \A k \in 1..Len(op) :
+     /\ (op[k].a = "repeat") => (k > 1 /\ op[k-1].a \notin { "repeat", "set_omega" })
+     /\ (op[k].a # "set_omega") => (op[k].om = OpBeforeK(k).om)
+     /\ (op[k].a = "set_omega") => (op[k].om # OpBeforeK(k).om /\ op[k].p = OpBeforeK(k).p /\ op[k].ph = 0)
 TypeWalk == frame \in Frames /\ phase \in 0..3 /\ Len(op) <= Depth /\ pos[1][2] > 0 /\ pos[2][2] > 0
 
 EmitWalk ==
@@ -445,9 +532,6 @@ EmitWalk ==
 \* =====================================================================================
 \* 2. RECON  (case oracle for the filtered back-projection)
 \* =====================================================================================
-AngSeq == << <<1,0,1>>, <<0,1,1>>, <<-1,0,1>>, <<0,-1,1>>, <<4,3,5>>, <<3,-4,5>>,
-             <<12,5,13>>, <<5,-12,13>>, <<24,7,25>>, <<-7,24,25>> >>
-ASSUME { AngSeq[k] : k \in 1..Len(AngSeq) } = Ang
 
 \* geometry.py 278-309  fit_sine_wave / sx_sy_y0_from_dty_omega: the inverse of dty_values_grain_in_beam.
 \* dty = y0 - sx sin(om) - sy cos(om) is linear in (sx, sy, y0): three projections at distinct angles
